@@ -30,7 +30,7 @@ func (f *Frame) exec(in ssa.Instruction) {
 	case *ssa.Alloc:
 		et := x.Type().(*types.Pointer).Elem()
 		if !x.Heap {
-			key := "L:" + f.id + x.Name()
+			key := "L:" + f.fnTag() + f.id + x.Name()
 			vc.regKey(key, e.sortOf(et))
 			f.lvals[x] = &LVal{key: key, ty: et}
 			f.set(st, key, e.zero(et))
@@ -310,6 +310,11 @@ func (f *Frame) binop(x *ssa.BinOp) {
 	case token.ADD:
 		if isStr {
 			f.setVal(x, "Str", S("scat", a, b))
+			return
+		}
+		if phi, ok := x.X.(*ssa.Phi); ok && phi.Comment == "rangeindex" {
+			// hidden index of a range-over-slice loop: bounded by the length, never wraps
+			f.setVal(x, "Int", S("+", a, b))
 			return
 		}
 		f.arith(x, S("+", a, b), what)
@@ -688,7 +693,7 @@ func (f *Frame) rangeInit(x *ssa.Range) {
 		return
 	}
 	ks := vc.eng.sortOf(mt.Key())
-	key := "it:" + f.id + x.Name()
+	key := "it:" + f.fnTag() + f.id + x.Name()
 	vc.regKey(key, fmt.Sprintf("(Array %s Bool)", ks))
 	f.set(f.cur, key, fmt.Sprintf("((as const (Array %s Bool)) false)", ks))
 	f.vals[x] = f.val(x.X)
@@ -708,7 +713,7 @@ func (f *Frame) rangeNext(x *ssa.Next) {
 		return
 	}
 	kv, kd, _ := vc.mapKeys(mt)
-	key := "it:" + f.id + rg.Name()
+	key := "it:" + f.fnTag() + f.id + rg.Name()
 	m := f.vals[rg]
 	okc := vc.fresh(f.id+x.Name()+"ok", "Bool")
 	kc := vc.fresh(f.id+x.Name()+"k", e.sortOf(mt.Key()))
